@@ -295,6 +295,30 @@ def cloneFrom (c : Cfg) (dst src : Map) (o : Orc) : Except Fault (Map × Out) :=
   | .error f => .error f
   | .ok (m', cost) => .ok (m', { cost := cost })
 
+/-! ### `extend` / `from_iter` -/
+
+/-- `iter.for_each(|(k, v)| { self.insert(k, v); })` — the value an overwriting `insert` hands back is
+    dropped on the spot.  `orc m n`: the oracle of the call issued in state `m` with `n` pairs still to come
+    (hashbrown's choices may depend on everything that happened before). -/
+def extendLoop (c : Cfg) (orc : Map → Nat → Orc) : Map → List Entry → Cost → Except Fault (Map × Cost)
+  | m, [], cost => .ok (m, cost)
+  | m, e :: rest, cost =>
+    match insert c m e (orc m rest.length) with
+    | .error f => .error f
+    | .ok (m', out) => extendLoop c orc m' rest (cost + out.cost + { dropped := out.returned })
+
+/-- `extend(iter)` for an iterator whose `size_hint().0` is its length (`Vec`, arrays, other maps): reserve the
+    whole hint if the map is empty, half of it (rounded up) otherwise, then insert every pair.
+    `from_iter` is `extend` on `with_capacity_and_hasher(0, …)`. -/
+def extend (c : Cfg) (m : Map) (items : List Entry) (orc : Map → Nat → Orc) : Except Fault (Map × Out) :=
+  let hint := if m.len = 0 then items.length else (items.length + 1) / 2
+  match reserve c m hint (orc m items.length) with
+  | .error f => .error f
+  | .ok (m1, out1) =>
+    match extendLoop c orc m1 items out1.cost with
+    | .error f => .error f
+    | .ok (m2, cost) => .ok (m2, { cost := cost })
+
 /-! ### Entry / raw-entry handle chains (`entry(k)…`, `raw_entry_mut().from_*(k)…`) -/
 
 /-- One method call on an entry handle.  Steps for the occupied (`occ…`) or vacant (`vac…`) variant
